@@ -3,9 +3,9 @@
 package worlds
 
 import (
-	"encoding/binary"
 	"context"
 	"crypto/rand"
+	"encoding/binary"
 	"fmt"
 	"log/slog"
 	"net/netip"
